@@ -467,7 +467,8 @@ namespace nmtools::array::sycl
             #if defined(NMTOOLS_VERIF) && defined(NMTOOLS_VERIF_WARP_SIZE)
             warp_size = NMTOOLS_VERIF_WARP_SIZE(warp_size);
             #endif
-            auto thread_size = size_t(std::ceil(float(numel) / warp_size)) * warp_size;
+            // integer ceil: float(numel) is not exact above 2^24 and the launch must cover every output element
+            auto thread_size = ((size_t(numel) + size_t(warp_size) - 1) / size_t(warp_size)) * size_t(warp_size);
 
             queue->submit([&](::sycl::handler& cgh){
                 // create accessor
